@@ -7,6 +7,7 @@ mod c07;
 mod c03;
 mod c05;
 mod c08;
+mod c13;
 mod c12;
 mod c18;
 mod memclient;
@@ -46,6 +47,7 @@ fn run(name: &str, args: &Value) -> Value {
         "c05_array_vs_single" => c05::array_vs_single(args),
         "c05_close_in_array" => c05::close_in_array(args),
         "c05_drop_full_queue" => c05::drop_full_queue(args),
+        "c13_registry" => c13::registry(args),
         "c08_append" => c08::append(args),
         "c08_response" => c08::response(args),
         other => {
